@@ -382,18 +382,26 @@ def check_builders_algebra(ctx, db):
     for labels, stmts, top in tables.switch_arms(gsw):
         for l in labels:
             garms[names.get(l, l)] = stmts
+    ev = db.fn('gdstk::SubPath::eval')
+    esw = next(s_ for s_ in ev.walk() if s_.k == 'SwitchStmt' and norm(s_.child('cond').text()).endswith('type'))
+    earms = {}
+    for labels, stmts, top in tables.switch_arms(esw):
+        for l in labels:
+            earms[names.get(l, l)] = stmts
     spec = {
         'segment': ('Segment', ['begin', 'end'], lambda E, b, P, G: {'begin': E, 'end': b(P['end_pt'])}, 'end', None),
         'cubic': ('Bezier3', ['p0', 'p1', 'p2', 'p3'], lambda E, b, P, G: {'p0': E, 'p1': b(P['point1']), 'p2': b(P['point2']), 'p3': b(P['point3'])}, 'p3', None),
         'cubic_smooth': ('Bezier3', ['p0', 'p1', 'p2', 'p3'], lambda E, b, P, G: {'p0': E, 'p1': None, 'p2': b(P['point2']), 'p3': b(P['point3'])}, 'p3', 3),
         'quadratic': ('Bezier2', ['p0', 'p1', 'p2'], lambda E, b, P, G: {'p0': E, 'p1': b(P['point1']), 'p2': b(P['point2'])}, 'p2', None),
         'quadratic_smooth': ('Bezier2', ['p0', 'p1', 'p2'], lambda E, b, P, G: {'p0': E, 'p1': None, 'p2': b(P['point2'])}, 'p2', 2),
+        'arc': ('Arc', ['radius_x', 'radius_y', 'angle_i', 'angle_f', 'cos_rot', 'sin_rot', 'center'], lambda E, b, P, G: {}, None, None),
     }
     n = 0
     for name, (kind, fields, expect, last, smooth) in spec.items():
         f = db.fn('gdstk::RobustPath::' + name)
         ctx.touch(f)
-        for relative in (True, False):
+        has_rel = any(p_['n'] == 'relative' for p_ in f.params)
+        for relative in ((True, False) if has_rel else (False,)):
             class BA(S.Algebra):
                 def value(self, e, env):
                     e0 = _strip_casts(e)
@@ -417,7 +425,12 @@ def check_builders_algebra(ctx, db):
 
             def do(stmts):
                 for s_ in stmts:
-                    if s_ is None or s_.k == 'DeclStmt':
+                    if s_ is None:
+                        continue
+                    if s_.k == 'DeclStmt':
+                        for v in s_.c:
+                            if v is not None and v.k == 'VarDecl' and v.child('init') is not None and re.fullmatch(r'(const )?double', v.t or ''):
+                                env[v.n] = alg.value(v.child('init'), env)
                         continue
                     if s_.k == 'CompoundStmt':
                         do(s_.c)
@@ -440,6 +453,8 @@ def check_builders_algebra(ctx, db):
                             key = 'sub.' + l.n
                         elif l.k == 'MemberExpr' and l.n == 'end_point':
                             key = 'end_point'
+                        elif l.k == 'DeclRefExpr' and l.dk == 'local' and l.n in env:
+                            key = l.n
                         else:
                             raise S.Unsupported('store to %s' % lhs.text()[:30])
                         v = alg.value(rhs, env)
@@ -455,10 +470,26 @@ def check_builders_algebra(ctx, db):
             base = (lambda v: alg.vadd(v, E)) if relative else (lambda v: v)
             want = expect(E, base, P, None)
             bad = [k for k, v in want.items() if v is not None and not alg.equal(env.get('sub.' + k, alg.vec(S.P(0), S.P(0))), v)]
-            okend = alg.equal(env['end_point'], env['sub.' + last])
+            okend = last is None or alg.equal(env['end_point'], env['sub.' + last])
             n += 1
             ctx.check(not bad and okend, 'R-ALGEBRA', 'RobustPath::%s/%s' % (name, 'relative' if relative else 'absolute'), f.loc(), 'stores %s with %s and moves the end point to the last of them' % (', '.join(fields), 'operands offset by the current end point' if relative else 'the operands as given'),
                       'fields %s differ from the documented control points (%s); end point %s' % (bad, {k: alg.render(env.get('sub.' + k)) for k in bad}, alg.render(env['end_point'])))
+            # the stored section starts where the path ended and the new end point is where the section ends (SubPath::eval's own arm)
+            try:
+                pts = []
+                for uval in (0, 1):
+                    eenv = {k: env['sub.' + k] for k in fields if ('sub.' + k) in env}
+                    eenv['u'] = S.P(uval)
+                    ea = S.Algebra(db, None)
+                    ea.funcs, ea.canon = alg.funcs, alg.canon
+                    pts.append(ea.block(earms[kind], eenv, 'point'))
+            except (S.Unsupported, KeyError) as e:
+                raise AnalysisBroken('SubPath::eval %s arm is outside the algebra for the fields stored by %s: %s' % (kind, name, e))
+            n += 1
+            ok0 = pts[0] is not None and alg.equal(alg.expand(pts[0]), alg.expand(E))
+            ok1 = pts[1] is not None and alg.equal(alg.expand(pts[1]), alg.expand(env['end_point']))
+            ctx.check(ok0 and ok1, 'R-ALGEBRA', 'RobustPath::%s/%s/joins' % (name, 'relative' if relative else 'absolute'), f.loc(), 'the section evaluates to the previous end point at u = 0 and to the new end point at u = 1 (adjacent sections meet)',
+                      'section start %s vs previous end point (E.x, E.y); section end %s vs stored end point %s' % (alg.render(pts[0])[:160] if pts[0] is not None else 'unset', alg.render(pts[1])[:160] if pts[1] is not None else 'unset', alg.render(env['end_point'])[:160]))
             if smooth:
                 genv = {k: env['sub.' + k] for k in fields}
                 genv['u'] = S.P(0)
@@ -469,7 +500,7 @@ def check_builders_algebra(ctx, db):
                 ctx.check(g0 is not None and alg.equal(g0, alg.vec(S.atom('G.x'), S.atom('G.y'))), 'R-ALGEBRA', 'RobustPath::%s/%s/C1' % (name, 'relative' if relative else 'absolute'), f.loc(),
                           'the gradient of the new section at u = 0 (SubPath::gradient, %s arm) equals the previous section\'s end gradient: first control point = end point + gradient / %d' % (kind, smooth),
                           'the smooth section starts with gradient %s instead of the previous end gradient (G.x, G.y)' % (alg.render(g0) if g0 is not None else 'unset'))
-    ctx.require('R-ALGEBRA builder identities', n, 14)
+    ctx.require('R-ALGEBRA builder identities', n, 24)
 
 
 def check_dimensions(ctx, db):
@@ -513,7 +544,7 @@ def run(ctx):
 
 
 MANIFEST = dict(
-    text='(R-DIM) A powers-of-length analysis of to_polygons and the intersection searches finds every addition and comparison dimensionally consistent; Decides structural necessary conditions of RobustPath consistency on every path: each section append is followed by exactly one fill_widths_and_offsets, which gives every element one width and one offset entry on all four branch combinations; no builder reads the path transform (frame discipline); the four point samplers, the four intersection searches and the four parameter-query prologues are clone families evaluating only their own side, with the sampler step clamped to the section end; look-ahead iterators advance with their loops in to_polygons/element_center/spine and the trailing cursors of the parallel section/offset/width arrays jump together; the OASIS PATH half-width is half and the GDSII WIDTH the full interpolated width; SubPathType/InterpolationType/EndType switches are exhaustive (defaults frozen); RobustPath::commands consumes exactly the operands its guard and advance constants state; SubPath::gradient is, symbolically, the derivative of SubPath::eval for segment, arc, quadratic and cubic sections, under the same linear transform; the builders segment/cubic/cubic_smooth/quadratic/quadratic_smooth store exactly the documented control points in relative and absolute mode and the smooth variants are C1 (the gradient of the new section at 0, taken from the matching arm of SubPath::gradient, equals the previous end gradient); the path-matrix methods translate, simple_scale, scale, simple_rotate, rotate, x_reflection and transform (both reflection states) update the 2x3 matrix so that, identically, every section point is mapped to the documented image of its previous image. Sampling accuracy, intersection convergence and cap geometry are not decided.',
+    text='(R-DIM) A powers-of-length analysis of to_polygons and the intersection searches finds every addition and comparison dimensionally consistent; Decides structural necessary conditions of RobustPath consistency on every path: each section append is followed by exactly one fill_widths_and_offsets, which gives every element one width and one offset entry on all four branch combinations; no builder reads the path transform (frame discipline); the four point samplers, the four intersection searches and the four parameter-query prologues are clone families evaluating only their own side, with the sampler step clamped to the section end; look-ahead iterators advance with their loops in to_polygons/element_center/spine and the trailing cursors of the parallel section/offset/width arrays jump together; the OASIS PATH half-width is half and the GDSII WIDTH the full interpolated width; SubPathType/InterpolationType/EndType switches are exhaustive (defaults frozen); RobustPath::commands consumes exactly the operands its guard and advance constants state; SubPath::gradient is, symbolically, the derivative of SubPath::eval for segment, arc, quadratic and cubic sections, under the same linear transform; the builders segment/cubic/cubic_smooth/quadratic/quadratic_smooth store exactly the documented control points in relative and absolute mode, every builder including arc produces a section that evaluates (through SubPath::eval) to the previous end point at u = 0 and to the stored new end point at u = 1, and the smooth variants are C1 (the gradient of the new section at 0, taken from the matching arm of SubPath::gradient, equals the previous end gradient); the path-matrix methods translate, simple_scale, scale, simple_rotate, rotate, x_reflection and transform (both reflection states) update the 2x3 matrix so that, identically, every section point is mapped to the documented image of its previous image. Sampling accuracy, intersection convergence and cap geometry are not decided.',
     note='Trusted: clang front end, gx, sa rules. The direct-builder set is discovered (methods appending to subpath_array) and compared with the confirmed list, so a new builder is reported until it is paired and listed.',
     technique='post-dominance pairing over the CFG + who-may-read effect rule + clone families with callee abstraction + look-ahead iterator rule + operand-consumption tables',
     design='§4 C08')
